@@ -265,7 +265,7 @@ func run(sc scenario, propID string) (out runOut) {
 		for i := 0; i < expectStart; i++ {
 			select {
 			case <-startedCh:
-			case <-time.After(30 * time.Second):
+			case <-harness.After(30 * time.Second):
 				out.inconclusive = fmt.Sprintf("only %d of %d attempts started within 30s", i, expectStart)
 				return out
 			}
@@ -323,7 +323,7 @@ func run(sc scenario, propID string) (out runOut) {
 				select {
 				case r := <-resCh:
 					got = &r
-				case <-time.After(30 * time.Second):
+				case <-harness.After(30 * time.Second):
 					return fail("accepted-result-not-delivered", "attempt %d finished with an accepted result (cancel-matching=%v, last of all=%v) but the call had not returned 30s later; %d other attempts still parked", id, sc.cancellable(id), final, expectStart-released)
 				}
 				out.finalPath = final && !sc.cancellable(id)
@@ -345,7 +345,7 @@ func run(sc scenario, propID string) (out runOut) {
 				if !errors.Is(r.err, context.Canceled) {
 					return fail("result-after-cancel", "after cancelling the context the call returned (%d,%v)", r.v, r.err)
 				}
-			case <-time.After(30 * time.Second):
+			case <-harness.After(30 * time.Second):
 				return fail("D10-hedge-wait-ignores-cancel", "context cancelled while the hedge executor waits for a pending 1h hedge delay: the call had not returned 30s later")
 			}
 			mu.Lock()
@@ -357,7 +357,7 @@ func run(sc scenario, propID string) (out runOut) {
 		select {
 		case r := <-resCh:
 			got = &r
-		case <-time.After(40 * time.Second):
+		case <-harness.After(40 * time.Second):
 			// possible only if nothing is accepted and a 1h delay is pending; the generator gives auto scenarios finite
 			// delays and at least one attempt that finishes, so this is a real hang
 			return fail("call-never-returned", "no result 40s after the start although attempts finish on their own and all hedge delays are finite")
